@@ -36,11 +36,30 @@ def component_of(case):
             'fftin': 'FftFixedIn', 'fftout': 'FftFixedOut', 'fftinout': 'FftFixedInOut'}.get(cfg.get('kind'), 'model')
 
 
+META_KEYS = ('cfg', 'ops', 'warp', 'sig', 'mask', 'nsuffix', 'kind', 'component', 'n0', 'ratio', 'tones', 'fam', 'mode', 'pedge',
+             'fft_in', 'exact', 'no_model', 'threads', 'migrate')
+
+
+def stamp_meta(c):
+    """record what a judge needs in a comment line of the spec (ignored by the harness), so that a stored history replays"""
+    if c.spec and c.spec[0].startswith('#meta '):
+        return
+    try:
+        keep = {k: c.meta[k] for k in META_KEYS if k in c.meta}
+        c.spec = ["#meta " + json.dumps(keep)] + list(c.spec)
+    except TypeError:
+        pass
+
+
 def execute(ctx, cases, res, judge=None, timeout=120, release=False):
     """Run the cases on implementation (+ model), collect disagreements, judge traces."""
+    for c in cases:
+        stamp_meta(c)
     run_cases(cases, ctx.outdir, with_model=ctx.with_model, release=release, timeout=timeout)
     seen = set()
+    res.setdefault('specs', {})
     for c in cases:
+        res['specs'][c.name] = c.spec
         res['n_eval'] += 1
         key = "\n".join(c.spec)
         if key not in seen:
@@ -79,9 +98,17 @@ def run_replay(ctx, P, path):
     if P.get('replay_aware'):
         ctx.replay_lines = lines
         return P['run'](ctx)
-    c = Case('replay', lines, {'component': 'replay'})
+    meta = {'component': 'replay'}
+    for l in lines:
+        if l.startswith('#meta '):
+            meta = json.loads(l[6:])
+    c = Case('replay', lines, meta)
     res = new_results('replay of %s' % path, ['replay'])
-    execute(ctx, [c], res, judge=P.get('judge_any'))
+    execute(ctx, [c], res, judge=P.get('judge_replay') or P.get('judge_any'))
+    if any(l.startswith('#golden-pass') for l in lines):
+        # this history satisfied the property on the pinned tree: whatever fails now is not a recorded finding
+        for f in res['failures']:
+            f['class'] = None
     return res
 
 
@@ -728,6 +755,44 @@ def corpus_cases(prefix='fixed_'):
     return out
 
 
+def directed_ramp_cases(rng, tag, linear_index_signal):
+    """small and medium ramped ratio changes on the fixed-output (and fixed-input) polynomial and sinc types, each
+    followed by three more calls: outside the proven envelope, used by the golden pass (recorded verdicts)"""
+    cases = []
+    for i in range(32):
+        r = rng.fork("%s_dr_%d" % (tag, i))
+        k = ['fastout', 'fastout', 'sincout', 'fastin'][i % 4]
+        cfg = async_cfg(r, k, 'quick', nch=1, ty='f64')
+        cfg['chunk'] = r.choice([256, 1024, 1024, 2048]) if k.startswith('fast') else r.choice([64, 128])
+        cfg['maxrel'] = r.choice([1.1, 1.25, 2.0, 4.0])
+        cfg['ratio'] = r.choice([1.0, 48000 / 44100, 44100 / 48000, 0.5, 2.0])
+        if k.startswith('fast'):
+            cfg['deg'] = 3 if linear_index_signal else r.below(4)
+        else:
+            cfg['slen'] = cfg['L'] = 16; cfg['interp'] = 'default'; cfg['factor'] = max(2, cfg['factor'])
+        tr = RatioTracker(cfg)
+        sig = "ramp" if linear_index_signal else "rand:%d" % r.below(10 ** 6)
+        lines = ["T ty=f64", new_line(cfg)]
+        ops = []
+        def pib():
+            ok, why = tr.envelope()
+            lines.append("PIB mask=- inlen=next outlen=next sig=%s" % sig)
+            ops.append({'op': 'pib', 'envelope': ok, 'why': why}); tr.processed()
+        pib(); pib()
+        for _ in range(1 + r.below(2)):
+            frac = r.choice([0.02, 0.05, 0.1, 0.2, 0.5, 0.9, 0.999])       # how far towards the bound
+            down = r.chance(0.6)
+            bound = tr.lo if down else tr.hi
+            x = tr.ratio + frac * (bound - tr.ratio)
+            x = min(max(x, tr.lo), tr.hi)
+            lines.append("SETRATIO x=%s ramp=1" % f64hex(x))
+            tr.set_ratio(x, True); ops.append({'op': 'setratio', 'ratio': x, 'ramp': True})
+            pib(); pib(); pib()
+        c = Case("%s_dr_%03d_%s" % (tag, i, k), lines, {'cfg': cfg, 'ops': ops, 'sig': sig, 'warp': linear_index_signal})
+        cases.append(c)
+    return cases
+
+
 def judge_C03(c):
     out = []
     tr = c.trace
@@ -754,6 +819,8 @@ def run_C03(ctx):
                       "each history also runs on the extracted model, which must predict the same outcome bit for bit",
                       ALL_COMPONENTS)
     cases = corpus_cases() + valid_stream(ctx, 84, 1400, 'v')
+    if getattr(ctx, 'golden', False):
+        cases += directed_ramp_cases(ctx.rng, 'v', False)
     execute(ctx, cases, res, judge_C03, timeout=300)
     res['dist'].update(collections.Counter("%s:%s" % (c.meta['cfg']['kind'], a['op']) for c in cases for a in c.meta['ops']))
     res['dist']['calls_outside_envelope'] = sum(1 for c in cases for a in c.meta['ops'] if not a.get('envelope', True))
@@ -816,6 +883,8 @@ def run_C04(ctx):
                       "frames; after every operation next <= max for input and output, consumed == input_frames_next, written <= "
                       "output_frames_next (== for fixed-output and synchronous types), nothing written beyond the returned count", ALL_COMPONENTS)
     cases = valid_stream(ctx, 84, 1400, 'g')
+    if getattr(ctx, 'golden', False):
+        cases += directed_ramp_cases(ctx.rng, 'g', False)
     execute(ctx, cases, res, judge_C04, timeout=300)
     res['dist'].update(collections.Counter(c.meta['cfg']['kind'] for c in cases))
     return res
@@ -1019,6 +1088,8 @@ def run_C06(ctx):
     def judge(c):
         return (judge_C06(c) if c.meta.get('warp') else []) + judge_setters(c)
 
+    if getattr(ctx, 'golden', False):
+        cases += [c for c in directed_ramp_cases(ctx.rng, 'warp', True) if c.meta['cfg']['kind'].startswith('fast')]
     execute(ctx, cases + sinc, res, judge, timeout=300)
     res['dist'].update({'ramp_histories': len(cases), 'sinc_histories': len(sinc),
                         'ratio_changes': sum(1 for c in cases for a in c.meta['ops'] if a['op'] in ('setratio', 'setrel'))})
@@ -2318,6 +2389,7 @@ PROPS = {
     },
     'C03': {
         'run': run_C03,
+        'judge_replay': lambda c: judge_C03(c) if 'ops' in c.meta else [],
         'pinned': ['C03_fast_in_call_safe_R', 'C03_fast_out_call_safe_R', 'C03_fast_in_run_safe_R', 'C03_fast_out_run_safe_R',
                    'C03_ctor_fast_in_R', 'C03_ctor_fast_out_R', 'C03_fast_window_R',
                    'C03_sinc_in_call_safe_R', 'C03_sinc_in_run_safe_R', 'C03_ctor_sinc_in_R',
@@ -2332,6 +2404,7 @@ PROPS = {
     },
     'C04': {
         'run': run_C04,
+        'judge_replay': lambda c: judge_C04(c) if 'ops' in c.meta else [],
         'pinned': ['C04_fast_in_counts_R', 'C04_fast_out_counts_R', 'C04_fast_in_next_le_max_R', 'C04_sinc_in_next_le_max_R', 'C04_fast_out_next_le_max_R',
                    'C04_sinc_in_counts_R', 'C04_sinc_out_counts_R'],
         'unproved': ['next <= max in binary64 (the inequalities are proved over R; the fix of D7 makes both sides the same association, '
@@ -2342,6 +2415,7 @@ PROPS = {
     },
     'C06': {
         'run': run_C06,
+        'judge_replay': lambda c: judge_C06(c) if (c.meta.get('warp') and 'ops' in c.meta) else [],
         'pinned': ['C06_instants_fixed_out_R', 'C06_instants_fixed_in_R', 'C06_loop_ops_R', 'C06_spacing_R', 'C06_increment_fixed_in_R',
                    'C06_increment_fixed_out_R', 'C06_step_immediate_R', 'C06_ramp_interval_R', 'C06_ramp_monotone_R',
                    'C06_steps_positive_R', 'C06_ramp_reaches_target_R', 'C06_after_ramp_R'],
@@ -2354,6 +2428,7 @@ PROPS = {
     },
     'C07': {
         'run': run_C07,
+        'judge_replay': lambda c: judge_C07(c) if 'cfg' in c.meta else [],
         'pinned': ['C07_fast_in_telescope_R', 'C07_fast_out_telescope_R', 'C07_fast_in_bound_R', 'C07_fast_out_bound_R',
                    'C07_ctor_fast_in_R', 'C07_ctor_fast_out_R', 'C07_sinc_in_bound_R', 'C07_sinc_out_bound_R'],
         'unproved': ['FFT types: by the bit-exact model and the balance predicate on every sampled stream, not by theorem',
